@@ -9,6 +9,7 @@ import (
 	"fmt"
 	"math/rand"
 	"os"
+	"sort"
 	"strconv"
 	"strings"
 	"testing"
@@ -169,6 +170,72 @@ func (g *pktGen) setup(variant int) {
 	for _, c := range w.chains {
 		w.fullDump(c)
 	}
+	if variant%4 == 3 {
+		// big packet stores: 260 commitments on chain 1, 260 receipts and 260 acknowledgements on chain 0 — beyond any
+		// page size an export could silently apply — followed straight away by a restart of both and replays spread over
+		// the whole key order
+		b := w.bulk(w.chains[1], w.chains[0], 1000, 260)
+		w.commitAll()
+		w.restart(w.chains[0])
+		w.restart(w.chains[1])
+		g.bulkReplay(b)
+	}
+}
+
+// bulkReplay re-submits, with genuine proofs, bulk packets whose receipts sit at the first / last rank and around the
+// ranks 100 and 200 of the destination's receipt keys (string order — the order a store walk sees).
+func (g *pktGen) bulkReplay(b *pktBulk) {
+	w := g.w
+	pfx := hx([]byte(host.KeyPacketReceiptPrefix + "/"))
+	var keys []string
+	for k := range b.dst.dump() {
+		if strings.HasPrefix(k, pfx) {
+			keys = append(keys, k)
+		}
+	}
+	sort.Strings(keys)
+	// ranks are taken among the keys the restart must have preserved: the harness' own record, not the live store
+	for k := range b.byRcpt {
+		found := false
+		for _, x := range keys {
+			if x == k {
+				found = true
+				break
+			}
+		}
+		if !found {
+			keys = append(keys, k)
+		}
+	}
+	sort.Strings(keys)
+	var picks []*pktSent
+	seen := map[*pktSent]bool{}
+	for _, r := range []int{0, 99, 100, 101, 199, 200, 201, len(keys) - 1, g.rng.Intn(len(keys))} {
+		for d := 0; d < len(keys); d++ { // nearest bulk packet at or after the rank (wrapping)
+			s := b.byRcpt[keys[(r+d)%len(keys)]]
+			if s != nil && !s.acked && !seen[s] {
+				seen[s] = true
+				picks = append(picks, s)
+				break
+			}
+		}
+	}
+	if len(picks) == 0 {
+		return
+	}
+	h, ok := g.provable(b.dst, b.src)
+	if !ok {
+		return
+	}
+	height := clienttypes.NewHeight(b.src.revision(), h)
+	for _, s := range picks {
+		proof := b.src.proofAt(host.PacketCommitmentKey(s.p.SrcChain, s.p.DstChain, s.p.Sequence), h)
+		if proof == nil {
+			continue
+		}
+		w.recv(b.dst, s.bz, proof, height, 0, "replay-bulk")
+	}
+	g.maybeCommit(b.dst)
 }
 
 func (g *pktGen) pick(ws ...int) int {
@@ -528,6 +595,11 @@ func (g *pktGen) doRestart() {
 		return
 	}
 	g.maybeCommit(c)
+	for _, b := range w.bulks {
+		if b.dst == c {
+			g.bulkReplay(b)
+		}
+	}
 	for i, n := 0, g.rng.Intn(3); i < n; i++ {
 		g.doReplayOn(c)
 	}
@@ -1080,21 +1152,42 @@ func (g *pktGen) evmRelayIn(ev *pktEvm) {
 	}
 }
 
-func (g *pktGen) evmSendOut(ev *pktEvm) {
+func (g *pktGen) evmSendOut(ev *pktEvm) { g.evmSendOutWith(ev, -1, -1) }
+
+// evmSendOutWith: success / deliver = 1 yes, 0 no, -1 random.
+func (g *pktGen) evmSendOutWith(ev *pktEvm, success, deliver int) {
 	w := g.w
 	cs := w.callSpec(ev.host, ev.host, "n", func(b []byte) { g.rng.Read(b) })
 	s := w.send(ev.host, ev.name, int64(1+g.rng.Intn(300)), cs, 0)
 	if s == nil {
 		return
 	}
-	// the EVM chain "receives" it: the hash of a success acknowledgement appears under the ack slot
+	// the EVM chain "receives" it (now or later): the hash of its acknowledgement — success, or an error acknowledgement
+	// that makes this chain refund — appears under the ack slot
 	relayer := ev.host.regAddr[ev.host.accts[0].addr.String()][ev.name]
-	ackBz := w.defAckEnc(0, []byte{}, "", relayer, s.p.FeeOption)
+	var ackBz []byte
+	if success == 1 || (success < 0 && g.rng.Intn(10) < 7) {
+		ackBz = w.defAckEnc(0, []byte{}, "", relayer, s.p.FeeOption)
+	} else {
+		ackBz = w.defAckEnc(2, []byte{}, "onRecvPackt: binding is not exist", relayer, s.p.FeeOption)
+	}
 	slot := pktEvmSlot(host.PacketAcknowledgementKey(s.p.SrcChain, s.p.DstChain, s.p.Sequence))
-	ev.cur[string(ev.contract)].storage[string(slot)] = pktSha(ackBz)
-	ev.cur[string(ev.contract)].nonce++
-	ev.out = append(ev.out, &pktEvmPacket{bz: s.bz, p: s.p, slot: slot, ackBz: ackBz, outward: true})
+	ep := &pktEvmPacket{bz: s.bz, p: s.p, slot: slot, ackBz: ackBz, outward: true}
+	ev.out = append(ev.out, ep)
+	if deliver == 1 || (deliver < 0 && g.rng.Intn(10) < 6) {
+		g.evmDeliverOut(ev, ep)
+	}
 	w.r.Count("evm.sendout." + ev.kind)
+}
+
+// evmDeliverOut: the EVM chain processes the packet and stores the hash of its acknowledgement.
+func (g *pktGen) evmDeliverOut(ev *pktEvm, ep *pktEvmPacket) {
+	if ep.ackStored {
+		return
+	}
+	ev.cur[string(ev.contract)].storage[string(ep.slot)] = pktSha(ep.ackBz)
+	ev.cur[string(ev.contract)].nonce++
+	ep.ackStored = true
 }
 
 func (g *pktGen) evmRelayAck(ev *pktEvm) {
@@ -1110,6 +1203,7 @@ func (g *pktGen) evmRelayAck(ev *pktEvm) {
 		return
 	}
 	ep := pend[g.rng.Intn(len(pend))]
+	g.evmDeliverOut(ev, ep)
 	h := w.evmProvable(ev)
 	proof := ev.states[h].genuine(ev.contract, ep.slot).json()
 	signer := g.rng.Intn(3)
@@ -1139,7 +1233,7 @@ func (g *pktGen) evmForge(ev *pktEvm, path, value []byte, stored bool) ([]byte, 
 	w := g.w
 	slot := pktEvmSlot(path)
 	if !stored {
-		switch g.rng.Intn(6) {
+		switch g.rng.Intn(7) {
 		case 0, 1: // the honest account proof, storage_hash + storage_proof of a trie built by the forger
 			h := w.evmProvable(ev)
 			st := ev.states[h]
@@ -1182,6 +1276,18 @@ func (g *pktGen) evmForge(ev *pktEvm, path, value []byte, stored bool) ([]byte, 
 				return rec.json(), g.evmHeight(h), "other-slot-rekeyed"
 			}
 			return rec.json(), g.evmHeight(h), "other-slot"
+		case 5: // lists of entries for other slots, none of them the slot of the path
+			h := w.evmProvable(ev)
+			st := ev.states[h]
+			rec := st.genuine(ev.contract, slot)
+			var entries []*pktEvmSP
+			for k := range st.accts[string(ev.contract)].storage {
+				if k != string(slot) && len(entries) < 2+g.rng.Intn(2) {
+					entries = append(entries, st.genuine(ev.contract, []byte(k)).StorageProof[0])
+				}
+			}
+			rec.StorageProof = entries
+			return rec.json(), g.evmHeight(h), "multi-entry-absent"
 		default: // genuine non-inclusion proof
 			h := w.evmProvable(ev)
 			return ev.states[h].genuine(ev.contract, slot).json(), g.evmHeight(h), "absent"
@@ -1190,7 +1296,7 @@ func (g *pktGen) evmForge(ev *pktEvm, path, value []byte, stored bool) ([]byte, 
 	h := w.evmProvable(ev)
 	st := ev.states[h]
 	rec := st.genuine(ev.contract, slot)
-	switch g.rng.Intn(12) {
+	switch g.rng.Intn(14) {
 	case 0:
 		rec.Nonce = hexutil.EncodeUint64(st.accts[string(ev.contract)].nonce + 1)
 		return rec.json(), g.evmHeight(h), "field-nonce"
@@ -1230,8 +1336,58 @@ func (g *pktGen) evmForge(ev *pktEvm, path, value []byte, stored bool) ([]byte, 
 	case 10: // sealed and genuine, but inside the confirmation-block window
 		st2 := w.evmAdvance(ev, 1)
 		return st2.genuine(ev.contract, slot).json(), g.evmHeight(st2.height), "height-inside-delay"
-	default:
+	case 11:
 		return rec.json(), clienttypes.NewHeight(1, h), "height-revision"
+	default: // the genuine entry inside a list of 0, 2 or 3 entries (eth_getProof for several slots)
+		var filler []*pktEvmSP
+		for k := range st.accts[string(ev.contract)].storage {
+			if k != string(slot) && len(filler) < 2 {
+				filler = append(filler, st.genuine(ev.contract, []byte(k)).StorageProof[0])
+			}
+		}
+		own := rec.StorageProof[0]
+		switch g.rng.Intn(4) {
+		case 0:
+			rec.StorageProof = []*pktEvmSP{}
+			return rec.json(), g.evmHeight(h), "multi-entry-none"
+		case 1:
+			rec.StorageProof = []*pktEvmSP{own, filler[0]}
+			return rec.json(), g.evmHeight(h), "multi-entry-first"
+		case 2:
+			rec.StorageProof = []*pktEvmSP{filler[0], own}
+			return rec.json(), g.evmHeight(h), "multi-entry-last"
+		default:
+			rec.StorageProof = []*pktEvmSP{filler[0], own, filler[1]}
+			return rec.json(), g.evmHeight(h), "multi-entry-middle"
+		}
+	}
+}
+
+// evmSameValue: a proof for `target` built from the genuine entry of `donor`, a slot that holds the same value:
+// un-rekeyed, alone or inside lists of 2-3 entries without any entry for the target slot.
+func (g *pktGen) evmSameValue(ev *pktEvm, st *pktEvmState, donor, target []byte) ([]byte, string) {
+	rec := st.genuine(ev.contract, donor)
+	own := rec.StorageProof[0]
+	var filler []*pktEvmSP
+	for k := range st.accts[string(ev.contract)].storage {
+		if k != string(donor) && k != string(target) && len(filler) < 2 {
+			filler = append(filler, st.genuine(ev.contract, []byte(k)).StorageProof[0])
+		}
+	}
+	switch g.rng.Intn(5) {
+	case 0, 1:
+		return rec.json(), "same-value-other-slot"
+	case 2:
+		rec.StorageProof = []*pktEvmSP{own, filler[0]}
+		return rec.json(), "same-value-list-first"
+	case 3:
+		rec.StorageProof = []*pktEvmSP{filler[0], own}
+		return rec.json(), "same-value-list-last"
+	default:
+		// with the target's own (non-inclusion) entry present somewhere in the list
+		tgt := st.genuine(ev.contract, target).StorageProof[0]
+		rec.StorageProof = []*pktEvmSP{own, filler[0], tgt}
+		return rec.json(), "same-value-list-with-target-entry"
 	}
 }
 
@@ -1298,9 +1454,65 @@ func (g *pktGen) evmForgeAck(ev *pktEvm) {
 	}
 	ep := pend[g.rng.Intn(len(pend))]
 	path := host.PacketAcknowledgementKey(ep.p.SrcChain, ep.p.DstChain, ep.p.Sequence)
-	stored := g.rng.Intn(2) == 0
+	// the acknowledgement hash does not cover the sequence: another packet of the same path acknowledged with the very
+	// same bytes gives a genuine proof of the SAME value under ANOTHER slot
+	if g.rng.Intn(5) < 2 {
+		var target, donor *pktEvmPacket
+		findPair := func() {
+			for _, a := range ev.out {
+				if a.acked || a.ackStored {
+					continue
+				}
+				for _, b := range ev.out {
+					if b != a && b.ackStored && string(b.ackBz) == string(a.ackBz) {
+						target, donor = a, b
+					}
+				}
+			}
+		}
+		findPair()
+		if target == nil {
+			// build the natural situation: two packets to the same chain, the first acknowledged there, the second pending
+			ok := g.rng.Intn(3)
+			if ok > 1 {
+				ok = 1
+			}
+			g.evmSendOutWith(ev, ok, 1)
+			g.evmSendOutWith(ev, ok, 0)
+			findPair()
+		}
+		for _, a := range pend[:0] {
+			if a.ackStored {
+				continue
+			}
+			for _, b := range ev.out {
+				if b != a && b.ackStored && string(b.ackBz) == string(a.ackBz) {
+					target, donor = a, b
+				}
+			}
+		}
+		if target != nil {
+			h := w.evmProvable(ev)
+			st := ev.states[h]
+			proof, tag := g.evmSameValue(ev, st, donor.slot, target.slot)
+			out := w.ack(ev.host, target.bz, donor.ackBz, proof, g.evmHeight(h), g.rng.Intn(3), "evm-"+tag)
+			w.r.Count("ack.evm-same-value." + map[bool]string{true: "ok", false: "err"}[out.ok])
+			if out.ok {
+				target.acked = true // (only a broken verifier gets here)
+			}
+			return
+		}
+		w.r.Count("ack.evm-same-value.no-pair")
+	}
+	if !ep.ackStored && g.rng.Intn(2) == 0 {
+		g.evmDeliverOut(ev, ep)
+	}
+	stored := ep.ackStored
 	ackBz := ep.ackBz
-	if !stored {
+	if stored && g.rng.Intn(2) == 0 {
+		stored = false
+	}
+	if !stored && ep.ackStored {
 		// an acknowledgement the EVM chain never wrote: the opposite outcome
 		relayer := ev.host.regAddr[ev.host.accts[0].addr.String()][ev.name]
 		ackBz = w.defAckEnc(1, []byte{}, "forged", relayer, ep.p.FeeOption)
